@@ -170,7 +170,7 @@ def check_text(text, indents, label):
     return None, changed
 
 
-DRESSINGS = ["plain", "comments", "docs", "blank", "spaces", "trailing", "tabs_in_comment", "attr_lines", "dup_comments"]
+DRESSINGS = ["plain", "comments", "docs", "blank", "spaces", "trailing", "tabs_in_comment", "attr_lines", "dup_comments", "body_attrs"]
 
 
 def nested(depth):
@@ -181,8 +181,13 @@ def nested(depth):
         lines.append("  " * d + "struct %s:" % names[d])
         lines.append("  " * (d + 1) + "-- doc %d" % d)
     ind = "  " * depth
-    lines += [ind + "0 [+1]  UInt  x", ind + "  -- doc x", ind + "  [requires: this < 5]", ind + "if x == 1:", ind + "  1 [+1]  bits:",
-              ind + "    0 [+4]  UInt  lo", ind + "      # comment", ind + "    4 [+4]  UInt  hi"]
+    lines += [ind + "enum Kk:", ind + "  -- enum doc", ind + "  [maximum_bits: 8]", ind + "  [is_signed: false]", ind + "  VA = 1", ind + "    -- value doc",
+              ind + "    [(cpp) enum_case: \"kCamelCase\"]", ind + "  VB = 2",
+              ind + "0 [+1]  UInt  x", ind + "  -- doc x", ind + "  [requires: this < 5]", ind + "if x == 1:", ind + "  1 [+1]  bits:",
+              ind + "    [byte_order: \"LittleEndian\"]",
+              ind + "    0 [+4]  UInt  lo", ind + "      # comment", ind + "    4 [+4]  UInt  hi",
+              ind + "2 [+1]  bits  named:", ind + "  -- inline bits doc", ind + "  [requires: aa == 1]", ind + "  0 [+8]  UInt  aa",
+              ind + "3 [+1]  enum  inl:", ind + "  -- inline enum doc", ind + "  [maximum_bits: 8]", ind + "  IV = 1"]
     for d in range(depth - 1, 0, -1):
         lines.append("  " * d + "0 [+2]  %s  f%d" % (names[d], d))
     return "\n".join(lines) + "\n"
@@ -201,6 +206,22 @@ def dress(text, how):
             if l.strip().endswith(":"):
                 pass
         out.append("# trailing comment")
+        return "\n".join(out) + "\n"
+    if how == "body_attrs":
+        # attribute and documentation lines at the head of every body (struct, bits, anonymous bits, enum)
+        for l in lines:
+            out.append(l)
+            st = l.strip()
+            ind = l[:len(l) - len(l.lstrip())]
+            if st.endswith("bits:") or st.startswith("struct ") or st.startswith("bits "):
+                if not st.endswith("bits:") or st.startswith("bits "):
+                    out.append(ind + "  -- body documentation")
+                out.append(ind + '  [$default byte_order: "LittleEndian"]')
+            elif st.startswith("enum "):
+                out.append(ind + "  -- enum documentation")
+                out.append(ind + "  -- second line")
+                out.append(ind + "  [maximum_bits: 32]")
+                out.append(ind + "  [is_signed: false]")
         return "\n".join(out) + "\n"
     if how == "dup_comments":
         for l in lines:
